@@ -175,6 +175,32 @@ Proof.
   unfold w32 in *. Z.div_mod_to_equations. lia.
 Qed.
 
+(* the emit routines and EmitBytes, cut at their call of write() *)
+Definition emit_post (k : ikind) (l : lbl) (e1 : em) : em :=
+  let e2 := if gen e1
+            then (let eb := emitBase e1 in
+                  add_lines [mkLine (ins_kind k) (address eb) (ins_len k)
+                                    (if is_label_kind k then l else nolbl) []] eb)
+            else e1 in
+  let e3 := set_address (w32 (address e2 + ins_len k)) e2 in
+  match k with
+  | E2L => set_d8 (add_dangling (d8 e3) l (w32 (address e3 - 1))) e3
+  | E3L => set_d16 (add_dangling (d16 e3) l (w32 (address e3 - 2))) e3
+  | _ => e3
+  end.
+Lemma emitK_eq : forall k d l e,
+  emitK k d l e = match write d e with None => Refused e | Some e1 => Done (emit_post k l e1) end.
+Proof. intros. unfold emitK. destruct (write d e); reflexivity. Qed.
+
+Definition emitBytes_lines (bs : list Z) (e : em) : em :=
+  if gen e then (let eb := emitBase e in add_lines (db_lines (address eb) bs) eb) else e.
+Lemma EmitBytes_eq : forall bs e,
+  EmitBytes bs e = match write bs (emitBytes_lines bs e) with
+                   | None => Refused (emitBytes_lines bs e)
+                   | Some e2 => Done (set_address (w32 (address e2 + zlen bs)) e2)
+                   end.
+Proof. intros. reflexivity. Qed.
+
 (* write() fails exactly when the target is not nil and the data does not fit *)
 Definition write_fails (d : list Z) (e : em) : bool :=
   match buf e with None => false | Some b => zlen b <? n e + zlen d end.
@@ -230,11 +256,11 @@ Proof.
   - em_destruct e. exact Hi.
   - em_destruct e. exact Hi.
   - em_destruct e. exact Hi.
-  - destruct (guard_ok g e); [|exact Hi]. unfold emitK.
+  - destruct (guard_ok g e); [|exact Hi]. rewrite !emitK_eq.
     pose proof (inv_store _ _ (apply_track_store t e) Hi) as Hi1.
     destruct (write d (apply_track t e)) as [e1|] eqn:Hw; cbn [state_of]; [|exact Hi1].
     apply (inv_store _ _ (emit_post_store k l e1)). eapply write_inv; eassumption.
-  - unfold EmitBytes. pose proof (inv_store _ _ (emitBytes_lines_store d e) Hi) as Hi1.
+  - rewrite !EmitBytes_eq. pose proof (inv_store _ _ (emitBytes_lines_store d e) Hi) as Hi1.
     destruct (write d (emitBytes_lines d e)) as [e2|] eqn:Hw; cbn [state_of]; [|exact Hi1].
     pose proof (write_inv _ _ _ Hi1 Hw) as Hi2. em_destruct e2. exact Hi2.
   - em_destruct e. unfold Comment, emitBase, add_lines. destruct g, bs; exact Hi.
@@ -353,9 +379,9 @@ Lemma refused_frame : forall o e e', exec o e = Refused e' -> frame e e'.
 Proof.
   intros o e e' H. destruct o as [a|c|c|k d l t g|d|id|l]; cbn [exec] in H; try discriminate.
   - destruct (guard_ok g e); [|inversion H; apply frame_refl].
-    unfold emitK in H. destruct (write d (apply_track t e)); [discriminate|].
+    rewrite emitK_eq in H. destruct (write d (apply_track t e)); [discriminate|].
     inversion H. apply apply_track_frame.
-  - unfold EmitBytes in H. destruct (write d (emitBytes_lines d e)); [discriminate|].
+  - rewrite EmitBytes_eq in H. destruct (write d (emitBytes_lines d e)); [discriminate|].
     inversion H. apply emitBytes_lines_frame.
   - unfold Label in H. destruct (lookup l (labels e)); [|discriminate]. inversion H. apply frame_refl.
 Qed.
@@ -402,8 +428,8 @@ Lemma refused_iff : forall o e, is_refused (exec o e) = pre_refused o e || cap_r
 Proof.
   intros o e. destruct o as [a|c|c|k d l t g|d|id|l]; cbn [exec pre_refused cap_refused is_refused]; try reflexivity.
   - destruct (guard_ok g e); cbn [negb orb andb]; [|reflexivity].
-    unfold emitK. rewrite write_spec. destruct (write_fails d (apply_track t e)); reflexivity.
-  - unfold EmitBytes. rewrite write_spec. destruct (write_fails d (emitBytes_lines d e)); reflexivity.
+    rewrite !emitK_eq. rewrite write_spec. destruct (write_fails d (apply_track t e)); reflexivity.
+  - rewrite !EmitBytes_eq. rewrite write_spec. destruct (write_fails d (emitBytes_lines d e)); reflexivity.
   - unfold Label, has. destruct (lookup l (labels e)); reflexivity.
 Qed.
 
@@ -449,10 +475,10 @@ Proof.
   - em_destruct e. reflexivity.
   - em_destruct e. reflexivity.
   - rewrite guard_ok_strip. destruct (guard_ok g e); [|reflexivity]. cbn [andb] in Hc.
-    unfold emitK. rewrite apply_track_strip, write_strip.
+    rewrite !emitK_eq. rewrite apply_track_strip, write_strip.
     destruct (write d (apply_track t e)) as [x1|] eqn:Hw; [|rewrite write_spec, Hc in Hw; discriminate].
     cbn [map_outcome]. f_equal. rewrite <- emit_post_strip, (write_strip_result _ _ _ Hw). reflexivity.
-  - unfold EmitBytes. rewrite emitBytes_lines_strip, write_strip.
+  - rewrite !EmitBytes_eq. rewrite emitBytes_lines_strip, write_strip.
     destruct (write d (emitBytes_lines d e)) as [x2|] eqn:Hw; [|rewrite write_spec, Hc in Hw; discriminate].
     cbn [map_outcome]. f_equal. rewrite <- (write_strip_result _ _ _ Hw).
     em_destruct x2. reflexivity.
@@ -522,7 +548,7 @@ Proof.
   - pose proof (apply_track_store t e) as Hs.
     rewrite (Hw d _ Hs (Z.le_refl _)). rewrite andb_false_r. split; [reflexivity|].
     destruct (guard_ok g e); cbn [state_of]; [|repeat split; try lia; assumption].
-    unfold emitK. rewrite write_spec, (Hw d _ Hs (Z.le_refl _)). cbn [state_of].
+    rewrite !emitK_eq. rewrite write_spec, (Hw d _ Hs (Z.le_refl _)). cbn [state_of].
     match goal with |- context [emit_post k l ?x] => pose proof (emit_post_store k l x) as [Hpb Hpn]; set (y := x) in * end.
     assert (Hy : write d (apply_track t e) = Some y).
     { rewrite write_spec, (Hw d _ Hs (Z.le_refl _)). reflexivity. }
@@ -530,7 +556,7 @@ Proof.
     unfold code in *. rewrite Hpb, Hpn. repeat split; assumption.
   - pose proof (emitBytes_lines_store d e) as Hs.
     rewrite (Hw d _ Hs (Z.le_refl _)). split; [reflexivity|].
-    unfold EmitBytes. destruct (write d (emitBytes_lines d e)) as [y|] eqn:Hy.
+    rewrite !EmitBytes_eq. destruct (write d (emitBytes_lines d e)) as [y|] eqn:Hy.
     + destruct (Hw2 d _ y Hs (Z.le_refl _) Hy) as (H1 & H2 & H3). cbn [state_of].
       em_destruct y. cbn in *. repeat split; assumption.
     + rewrite write_spec, (Hw d _ Hs (Z.le_refl _)) in Hy. discriminate.
@@ -604,7 +630,7 @@ Proof.
   - em_destruct e. cbn. repeat split; auto.
   - em_destruct e. cbn. repeat split; auto.
   - destruct (guard_ok g e); cbn [state_of]; [|repeat split; auto].
-    unfold emitK. pose proof (apply_track_store t e) as [Hb Hn].
+    rewrite !emitK_eq. pose proof (apply_track_store t e) as [Hb Hn].
     assert (Hg : gen (apply_track t e) = gen e) by (em_destruct e; destruct t; reflexivity).
     destruct (write d (apply_track t e)) as [e1|] eqn:Hw; cbn [state_of].
     + destruct (write_fields _ _ _ Hw) as (_ & Hg1 & _ & _ & _ & _ & _ & _ & _ & Hnil).
@@ -615,7 +641,7 @@ Proof.
       intros Hi. unfold code. rewrite Hpb. fold (code e1).
       rewrite (write_cap _ _ _ (inv_store _ _ (apply_track_store t e) Hi) Hw). unfold code. rewrite Hb. reflexivity.
     + split; [exact Hg|]. split; [rewrite Hb; reflexivity|]. intros _. unfold code. rewrite Hb. reflexivity.
-  - unfold EmitBytes. pose proof (emitBytes_lines_store d e) as [Hb Hn].
+  - rewrite !EmitBytes_eq. pose proof (emitBytes_lines_store d e) as [Hb Hn].
     assert (Hg : gen (emitBytes_lines d e) = gen e).
     { clear. em_destruct e. unfold emitBytes_lines, emitBase, add_lines. destruct g, bs; reflexivity. }
     destruct (write d (emitBytes_lines d e)) as [e2|] eqn:Hw; cbn [state_of].
@@ -664,7 +690,7 @@ Proof.
   - apply same_maps_ok; [|exact Hs]. em_destruct e. repeat split.
   - destruct (guard_ok g e); cbn [state_of]; [|split; [exact Hs|apply keys_incl_refl]].
     assert (Ht : same_maps e (apply_track t e)) by (em_destruct e; destruct t; repeat split).
-    unfold emitK. destruct (write d (apply_track t e)) as [e1|] eqn:Hw; cbn [state_of].
+    rewrite !emitK_eq. destruct (write d (apply_track t e)) as [e1|] eqn:Hw; cbn [state_of].
     + destruct (write_fields _ _ _ Hw) as (_ & _ & _ & _ & _ & _ & L1 & L2 & L3 & _).
       destruct Ht as (T1 & T2 & T3).
       assert (H1 : same_maps e e1) by (unfold same_maps; rewrite L1, L2, L3; auto).
@@ -672,7 +698,7 @@ Proof.
       destruct (emit_post_maps k l e1 Hs1) as [Hs2 Hk2].
       split; [exact Hs2|eapply keys_incl_trans; eassumption].
     + apply same_maps_ok; assumption.
-  - unfold EmitBytes.
+  - rewrite !EmitBytes_eq.
     assert (Ht : same_maps e (emitBytes_lines d e)).
     { em_destruct e. unfold emitBytes_lines, emitBase, add_lines. destruct g, bs; repeat split. }
     destruct (write d (emitBytes_lines d e)) as [e2|] eqn:Hw; cbn [state_of].
@@ -780,7 +806,7 @@ Proof.
   - em_destruct c. reflexivity.
   - em_destruct c. reflexivity.
   - rewrite guard_ok_glue in *. destruct (guard_ok g c); [|reflexivity]. cbn [andb] in *.
-    unfold emitK. rewrite apply_track_glue in *.
+    rewrite !emitK_eq. rewrite apply_track_glue in *.
     destruct (write d (apply_track t c)) as [c1|] eqn:Hw; [|rewrite write_spec, Hc in Hw; discriminate].
     assert (Hcp1 : coupled a (apply_track t c)).
     { pose proof (apply_track_store t c) as [Hb Hn].
@@ -789,7 +815,7 @@ Proof.
     rewrite (write_glue d a _ c1 Hcp1 Hgc Hw). cbn [map_outcome]. f_equal.
     apply emit_post_glue. destruct (write_fields _ _ _ Hw) as (_ & Hg1 & _).
     rewrite Hg1. destruct Hcp1 as (Hg2 & _). exact Hg2.
-  - unfold EmitBytes. rewrite emitBytes_lines_glue in * by exact Hg.
+  - rewrite !EmitBytes_eq. rewrite emitBytes_lines_glue in * by exact Hg.
     destruct (write d (emitBytes_lines d c)) as [c2|] eqn:Hw; [|rewrite write_spec, Hc in Hw; discriminate].
     assert (Hcp1 : coupled a (emitBytes_lines d c)).
     { pose proof (emitBytes_lines_store d c) as [Hb Hn].
